@@ -6820,7 +6820,9 @@ func extraC12IndependentRangeChecks(c *Ctx, r *Report) {
 	}
 	ptrField := func(v ssa.Value) *types.Var {
 		// a load of a pointer-typed field of the request (r.TopP), possibly dereferenced once more (*r.TopP)
-		for d := 0; d < 3 && v != nil; d++ {
+		// … or the parameter of a check helper that was handed that field (`validateSamplingParams(r.Temperature, r.TopP, …)`)
+		for d := 0; d < 4 && v != nil; d++ {
+			v = boundValue(v)
 			ld, ok := v.(*ssa.UnOp)
 			if !ok || ld.Op != token.MUL {
 				return nil
@@ -6848,6 +6850,17 @@ func extraC12IndependentRangeChecks(c *Ctx, r *Report) {
 			continue
 		}
 		scope = append(scope, g)
+	}
+	for _, g := range withHelpers(f, 2) { // … or into helpers that take the fields themselves
+		dup := false
+		for _, h := range scope {
+			if h == g {
+				dup = true
+			}
+		}
+		if !dup {
+			scope = append(scope, g)
+		}
 	}
 	var allRets []*ssa.Return
 	for _, g := range scope {
